@@ -130,6 +130,8 @@ def run_case(prop, part, case, stats, known, enumerated=False):
     """Execute one case, account for it, return list of unknown (sig, msg)."""
     out = part.execute(case)
     stats.evaluations += 1
+    if stats.evaluations % 500 == 0:
+        _freeze()
     pp = stats.per_part.setdefault(part.name, {'evaluations': 0, 'nontrivial': 0})
     pp['evaluations'] += 1
     for lab in out.labels:
@@ -161,6 +163,13 @@ def run_case(prop, part, case, stats, known, enumerated=False):
     return unknown
 
 
+def _freeze():
+    # the runner calls gc.collect() twice per layer; keep the (large, static) harness heap out of it
+    import gc
+    gc.collect()
+    gc.freeze()
+
+
 def worker_main(argv):
     prop_id, tier, seed, w, nworkers, outfile = argv
     seed, w, nworkers = int(seed), int(w), int(nworkers)
@@ -175,6 +184,7 @@ def worker_main(argv):
             if only and part.name != only:
                 continue
             part.setup()
+            _freeze()
             _run_part(prop, part, tier, seed, w, nworkers, stats, known)
         result['ok'] = True
     except HarnessError as e:
